@@ -202,6 +202,16 @@ pub struct ReplayFile {
     pub log_digest: String,
     pub minimised: bool,
     pub history: Vec<world::Ev>,
+    /// the execution that preceded the violating one in the same process, for violations of process-wide state (actor ids
+    /// are allocated from one counter per process): replay runs it first. Absent for everything else.
+    #[serde(default, skip_serializing_if = "Option::is_none")]
+    pub prelude: Option<Prelude>,
+}
+
+#[derive(Serialize, Deserialize, Clone)]
+pub struct Prelude {
+    pub scenario: Scenario,
+    pub sched: SchedCfg,
 }
 
 #[derive(Serialize, Default)]
@@ -313,6 +323,8 @@ fn cmd_run(args: &[String]) -> i32 {
     let mut seen_sigs: BTreeSet<String> = BTreeSet::new();
     let mut grid_cells: BTreeSet<u64> = BTreeSet::new();
     let mut i = shard;
+    // (scenario index, schedule index) of the execution before the current one in this process
+    let mut last_run: Option<(u64, u64)> = None;
     'outer: while i < scenarios {
         let sseed = profiles::scenario_seed(&prop, seed, i);
         let (family, sc) = profiles::scenario(&prop, &tier, sseed, i);
@@ -324,6 +336,7 @@ fn cmd_run(args: &[String]) -> i32 {
         for j in 0..scheds {
             let cfg = gen::gen_sched(mix(mix(seed, i), 1000 + j));
             let jd = judge(&prop, &sc, &cfg);
+            let prev_run = last_run.replace((i, j));
             st.evaluations += 1;
             *st.strategies.entry(cfg.strategy.name().to_string()).or_insert(0) += 1;
             st.decisions_total += jd.res.rep.steps;
@@ -353,7 +366,36 @@ fn cmd_run(args: &[String]) -> i32 {
             if !jd.violations.is_empty() {
                 let v0 = jd.violations[0].clone();
                 let key = format!("{}:{}", v0.prop, v0.sig);
-                if seen_sigs.insert(key) {
+                if v0.sig.ends_with("duplicate-id") && prev_run.is_some() && seen_sigs.insert(key.clone()) {
+                    // process-wide state: the id was handed out twice because of what the *previous* execution in this process
+                    // left behind. The pair (previous execution, this execution) is the reproducer; shrinking one half alone
+                    // would be meaningless, so the file is written unminimised with the predecessor as its prelude.
+                    let (pi, pj) = prev_run.unwrap();
+                    let (_, psc) = profiles::scenario(&prop, &tier, profiles::scenario_seed(&prop, seed, pi), pi);
+                    let pcfg = gen::gen_sched(mix(mix(seed, pi), 1000 + pj));
+                    let mut rcfg = cfg.clone();
+                    rcfg.replay = Some(jd.res.rep.decisions.clone());
+                    let rf = ReplayFile {
+                        property: prop.clone(),
+                        signature: v0.sig.clone(),
+                        engine: "S".into(),
+                        features: features().iter().map(|s| s.to_string()).collect(),
+                        seed,
+                        run_index: i,
+                        scenario: sc.clone(),
+                        sched: rcfg,
+                        violation: v0.clone(),
+                        log_digest: format!("{:016x}", log_digest(&jd.res)),
+                        minimised: false,
+                        history: jd.res.log.clone(),
+                        prelude: Some(Prelude { scenario: psc, sched: pcfg }),
+                    };
+                    let path = write_replay(&replay_dir, &rf);
+                    st.violations.push(serde_json::json!({"violation": v0, "replay": path, "minimiser_executions": 0, "original_size": sc.size(), "minimised_size": sc.size(), "prelude_run": [pi, pj]}));
+                    if st.violations.len() >= max_viol {
+                        break 'outer;
+                    }
+                } else if seen_sigs.insert(key) {
                     // minimise, then write the replay file from a fresh execution of the minimised case
                     let (msc, mcfg, mv, execs) = minimise::minimise(&prop, &v0, &sc, &cfg, if tier == "quick" { 600 } else { 2000 });
                     let mut rcfg = mcfg.clone();
@@ -372,6 +414,7 @@ fn cmd_run(args: &[String]) -> i32 {
                         log_digest: format!("{:016x}", log_digest(&jd2.res)),
                         minimised: true,
                         history: jd2.res.log.clone(),
+                        prelude: None,
                     };
                     let path = write_replay(&replay_dir, &rf);
                     st.violations.push(serde_json::json!({"violation": mv, "replay": path, "minimiser_executions": execs, "original_size": sc.size(), "minimised_size": rf.scenario.size()}));
@@ -428,6 +471,11 @@ fn cmd_replay(args: &[String]) -> i32 {
     if rf.features != want {
         eprintln!("replay: this binary has features {want:?}, the file was recorded with {:?}", rf.features);
         return 3;
+    }
+    if let Some(p) = &rf.prelude {
+        // the predecessor of the violating execution (process-wide state), under the same seeds as in the recording
+        let pj = judge(&rf.property, &p.scenario, &p.sched);
+        println!("prelude executed: {} events", pj.res.log.len());
     }
     let jd = judge(&rf.property, &rf.scenario, &rf.sched);
     let digest = format!("{:016x}", log_digest(&jd.res));
@@ -620,6 +668,7 @@ fn cmd_compare(args: &[String]) -> i32 {
                     log_digest: format!("{:016x}", log_digest(&res)),
                     minimised: false,
                     history: res.log.clone(),
+                    prelude: None,
                 };
                 let path = write_replay(&replay_dir, &rf);
                 st.violations.push(serde_json::json!({"violation": v0, "replay": path}));
